@@ -140,8 +140,15 @@ pub(super) fn deliver(k: &mut Kernel, pkt: &Packet, s: &TcpSegment) {
     // First try to demux to an established/in-progress connection by
     // 4-tuple. Listener fallback only runs if that misses.
     if let Some(fd) = k.sockets.find_connection(local, remote) {
-        handle_on_connection(k, fd, local, remote, s);
-        return;
+        // A TCB that reached Closed stays indexed until the app drops
+        // its handle. It must not swallow the SYN of a new connection
+        // that reuses the 4-tuple: let that fall through to the
+        // listener (the new child takes over the index entry).
+        let dead = matches!(&k.lookup(fd).expect("fd present").tcb, Some(t) if t.state == TcpState::Closed);
+        if !(dead && s.flags.syn && !s.flags.ack) {
+            handle_on_connection(k, fd, local, remote, s);
+            return;
+        }
     }
 
     // Listener fallback — SYN on an otherwise-unknown 4-tuple.
